@@ -563,7 +563,7 @@ def r3_growth(program, rep):
         for n_, c, recv, args in method_calls(T, "append"):
             if recv == PATH and len(args) == 1:
                 entries.append(args[0])
-        okp = len(entries) >= 2
+        okp = len(entries) >= 1
         for e in entries:
             m = match(("tuple", ("call", ("global", "Routes"),
                                  (("comp", ("item", VIS, V("x")), 0),), ()),
